@@ -12,6 +12,14 @@ run_demo() {
     mkdir -p io/tests; cp $SRC/demo.rs io/tests/seed_demo.rs
     cargo test -p flatty-io --offline --test seed_demo >/tmp/confirm_$ID.demo.log 2>&1; rc=$?
     rm -rf io/tests
+  elif grep -q "portable/tests" $SRC/README.md; then
+    mkdir -p portable/tests; cp $SRC/demo.rs portable/tests/seed_demo.rs
+    cargo test -p flatty-portable --offline --test seed_demo >/tmp/confirm_$ID.demo.log 2>&1; rc=$?
+    rm -rf portable/tests
+  elif grep -q "containers/tests" $SRC/README.md; then
+    mkdir -p containers/tests; cp $SRC/demo.rs containers/tests/seed_demo.rs
+    cargo test -p flatty-containers --offline --test seed_demo >/tmp/confirm_$ID.demo.log 2>&1; rc=$?
+    rm -rf containers/tests
   elif grep -q "portable/src/seed_demo.rs" $SRC/README.md; then
     cp $SRC/demo.rs portable/src/seed_demo.rs; printf '\n#[cfg(test)]\nmod seed_demo;\n' >> portable/src/lib.rs
     cargo test -p flatty-portable --offline seed_demo >/tmp/confirm_$ID.demo.log 2>&1; rc=$?
